@@ -314,6 +314,9 @@ def make_cases(tier, sd):
 
 
 # ---------------------------------------------------------------------------- execution
+CRASHES = []     # processes killed inside the runner during the last run_cases
+
+
 def run_cases(binary, cases, wd):
     """Runs the harness once per limit under taskset; restarts after stalls/hangs."""
     cases_path = os.path.join(wd, "cases.ndjson")
@@ -323,6 +326,7 @@ def run_cases(binary, cases, wd):
     out_path = os.path.join(wd, "traces.ndjson")
     open(out_path, "w").close()
     limits = sorted({c["cfg"]["limit"] for c in cases})
+    crashes = CRASHES
 
     def run_limit(limit):
         resume = ""
@@ -349,6 +353,17 @@ def run_cases(binary, cases, wd):
                         # three builds that never finished (each is a recorded execution the
                         # monitor judges): the remaining cases of this limit add nothing
                         return op
+                continue
+            what = vlib.fatal_in_code_under_test(p.stdout)
+            cur = op + ".cur"
+            if what and os.path.exists(cur) and len(crashes) >= 6:
+                return op      # enough crashed builds to decide; the rest of this limit adds nothing
+            if what and os.path.exists(cur):
+                # the runner itself killed the process (stack overflow of the cycle walk, ...): that
+                # is the outcome of the case in flight; go on after it
+                cid = open(cur).read().strip()
+                crashes.append({"id": cid, "what": what})
+                resume = cid
                 continue
             raise Inconclusive("runner harness failed (exit %d):\n%s" % (p.returncode, p.stdout[-3000:]))
         raise Inconclusive("runner harness kept stalling")
@@ -396,7 +411,9 @@ def pipeline(tier):
     res["n_cases"] = len(cases)
     # 3. build and run
     binary = vlib.build_test("runner", wd)
+    del CRASHES[:]
     traces = run_cases(binary, cases, wd)
+    crashed = list(CRASHES)
     stalls = [t for t in traces if t.get("stall")]
     traces = [t for t in traces if not t.get("stall")]
     res["stalls"] = [t["id"] for t in stalls]
@@ -428,6 +445,11 @@ def pipeline(tier):
         for x in v["viol"]:
             out.append({"prop": x["prop"], "what": x["what"], "l": x.get("l", ""), "at": x.get("at"), "id": v["id"],
                         "case": by_id.get(v["id"]), "mode": t["mode"]})
+    by_case = {c["id"]: c for c in cases}
+    for c in crashed:
+        # a build that ends in a fatal error of the process neither finishes nor reports anything
+        out.append({"prop": "C05", "what": "the runner killed the process instead of finishing the build: " + c["what"], "l": "", "at": 0,
+                    "id": c["id"], "case": by_case.get(c["id"].split(".")[0]), "mode": "crash"})
     res["violations"] = out
     # 5. design conformance (drift) on controlled traces
     ctl = [t for t in traces if t["mode"] != "stress" and t.get("steps") and not t.get("bounded")]
